@@ -45,6 +45,8 @@ def record():
     env.pop("CSVPATH_CONFIG_PATH", None)        # the tests use the repository's own config/config.ini (copied next to them)
     cmd = ["/venv/bin/python", "-m", "pytest", "-q", "-p", "no:cacheprovider", "-p", "lib.verif_pytest_plugin", "--timeout=900"] + TEST_PATHS
     p = subprocess.run(cmd, cwd=d, env=env, capture_output=True, text=True, timeout=2400)
+    if os.path.exists(out + ".harness_failed"):
+        raise MachineryError("the recorder's observation code failed while the repository's tests ran:\n" + open(out + ".harness_failed").read())
     if not os.path.exists(out):
         raise MachineryError(f"the recorder wrote no traces:\n{p.stdout[-1500:]}\n{p.stderr[-1500:]}")
     recs = [json.loads(l) for l in open(out)]
